@@ -11,7 +11,7 @@ RULE = ("real-time sessions over loopback for (local hold, remote hold) pairs fr
         "hold/3; hold 0: established, no periodic KEEPALIVE, no expiry) and against the connection model's negotiated value. "
         "distinct = distinct (pair, traffic pattern).")
 ASSUMPTIONS = ["wall-clock tolerance 350 ms for scheduling noise", "hold 0: 'never expires' observed over a 4 s window in the quick tier"]
-COQ_FILES = ["Model/Conn.v", "Model/Timed.v", "Model/TimedW.v", "Proofs/ConnProofs.v", "Proofs/TimedProofs.v", "Proofs/TimedWProofs.v", "Props/C06.v"]
+COQ_FILES = ["Model/Conn.v", "Model/Timed.v", "Model/TimedW.v", "Proofs/ConnProofs.v", "Proofs/TimedProofs.v", "Proofs/TimedWProofs.v", "Proofs/TimedWTie.v", "Props/C06.v"]
 TOL = 350
 
 
